@@ -29,7 +29,7 @@ META = {
     "explanation": "BlockStore write/flush/read and read_chain_from_disk executed for symbolic block contents on a relational model of SQLite "
                    "(schema parsed from the repository's DDL); read-back blocks and the rebuilt ledger are compared with what was written.",
     "technique": "CrossHair symbolic execution of the block store on a relational stub (schema from the repo's CREATE TABLE text), differential validation against real sqlite3",
-    "bounds": "<= 3 blocks above genesis (thorough 4), reward + <= 1 spend per block, all flush batchings, two orders for rows of equal height",
+    "bounds": "<= 3 blocks above genesis (thorough: all 3-block trees with all batchings, four 4-block trees), reward + <= 1 spend per block, two orders for rows of equal height",
     "outside": "SQLite itself (journalling, file corruption, concurrent connections); larger trees",
     "stubs": ["relational stand-in for sqlite3 (symlib/stubs/relstore.py)", "LRO hash oracle for transaction ids", "PyBytesIO"],
     "assumptions": ["the stand-in equals SQLite for the statements the store issues (validated per run on concrete scenarios; replays use real SQLite)"],
@@ -438,8 +438,10 @@ def obligations(tier: str, known: List[str]) -> List[Ob]:
             sym = pair if pair is not None else tuple(range(max(0, n - 2), n))
             if not thorough and n == 3 and parents not in ((0, 0, 1), (0, 1, 2), (0, 1, 1)):
                 continue
+            if n == 4 and parents not in ((0, 1, 2, 3), (0, 1, 1, 3), (0, 0, 2, 2), (0, 1, 2, 2)):
+                continue        # 4-block trees cost up to 30 min each: four representative shapes
             pats = PATTERNS.get(parents, [tuple([0] * n), tuple([1] + [3] * (n - 1)) if parents[1:] and all(p > 0 for p in parents[1:]) else tuple([0] * n)])
-            masks = range(2 ** (n - 1)) if ((thorough and n <= 3) or n <= 2) else (0, 2 ** (n - 1) - 1)
+            masks = range(2 ** (n - 1)) if ((thorough and n <= 3) or n <= 2) else ((0, 2 ** (n - 1) - 1) if n == 3 else (0,))
             for sp in dict.fromkeys(pats):
                 if not _valid_history(parents, list(sp)):
                     continue
